@@ -879,8 +879,8 @@ func tlsSummary(c *tls.Config) string {
 	if c == nil {
 		return "nil"
 	}
-	return fmt.Sprintf("%p{InsecureSkipVerify:%v VerifyConnection:%v VerifyPeerCertificate:%v RootCAs:%p ServerName:%q NextProtos:%v Min:%#x Max:%#x Certificates:%d GetClientCertificate:%v}",
-		c, c.InsecureSkipVerify, c.VerifyConnection != nil, c.VerifyPeerCertificate != nil, c.RootCAs, c.ServerName, c.NextProtos, c.MinVersion, c.MaxVersion, len(c.Certificates), c.GetClientCertificate != nil)
+	return fmt.Sprintf("%p{InsecureSkipVerify:%v VerifyConnection:%v VerifyPeerCertificate:%v RootCAs:%p ServerName:%q NextProtos:%v Min:%#x Max:%#x Certificates:%d GetClientCertificate:%v ClientSessionCache:%s}",
+		c, c.InsecureSkipVerify, c.VerifyConnection != nil, c.VerifyPeerCertificate != nil, c.RootCAs, c.ServerName, c.NextProtos, c.MinVersion, c.MaxVersion, len(c.Certificates), c.GetClientCertificate != nil, ident(c.ClientSessionCache))
 }
 
 // takeSnap copies what the statement calls "default HTTP client settings".
@@ -931,6 +931,79 @@ func snapDiff(a, b map[string]string) []string {
 	return d
 }
 
+// ---- a process that resumes TLS sessions ----------------------------------------
+
+// countingCache is the TLS client session cache an application may give to
+// the process-wide transport (tls.NewLRUClientSessionCache), with counters.
+type countingCache struct {
+	inner              tls.ClientSessionCache
+	gets, hits, stores atomic.Int64
+}
+
+func (c *countingCache) Get(key string) (*tls.ClientSessionState, bool) {
+	c.gets.Add(1)
+	s, ok := c.inner.Get(key)
+	if ok && s != nil {
+		c.hits.Add(1)
+	}
+	return s, ok
+}
+
+func (c *countingCache) Put(key string, s *tls.ClientSessionState) {
+	if s != nil {
+		c.stores.Add(1)
+	}
+	c.inner.Put(key, s)
+}
+
+// useProcessSessionCache configures the process the way an application that
+// wants its own HTTPS requests to resume TLS sessions does:
+//
+//	http.DefaultTransport.(*http.Transport).TLSClientConfig = &tls.Config{ClientSessionCache: tls.NewLRUClientSessionCache(64)}
+//
+// It must run before the transport's first use: net/http's lazy HTTP/2 set-up
+// (ForceAttemptHTTP2 is set on DefaultTransport) then adds its NextProtos to
+// this very tls.Config, and every snapshot is taken with the setting in place.
+// Nothing else is set: un-pinned calls keep ordinary validation (system roots,
+// i.e. SSL_CERT_FILE).
+func (w *world) useProcessSessionCache() bool {
+	t, ok := http.DefaultTransport.(*http.Transport)
+	if !ok || t.TLSClientConfig != nil {
+		return false
+	}
+	w.cache = &countingCache{inner: tls.NewLRUClientSessionCache(64)}
+	t.TLSClientConfig = &tls.Config{ClientSessionCache: w.cache}
+	return true
+}
+
+// resumeControl is the positive control of the same-server engine: the
+// harness's own TLS client, with a session cache of its own, connects twice to
+// the endpoint and reads a response each time; the second connection must be a
+// resumption, i.e. the server does hand out sessions a later connection may
+// resume.  Run after the calls of a sequence (its connections are not theirs).
+func (ep *endpoint) resumeControl() bool {
+	cfg := &tls.Config{InsecureSkipVerify: true, ClientSessionCache: tls.NewLRUClientSessionCache(2), NextProtos: []string{"http/1.1"}}
+	for i := 0; i < 2; i++ {
+		c, err := tls.DialWithDialer(&net.Dialer{Timeout: 5 * time.Second}, "tcp", ep.tcp.Addr().String(), cfg)
+		if err != nil {
+			return false
+		}
+		c.SetDeadline(time.Now().Add(5 * time.Second))
+		io.WriteString(c, "GET /c13-resumption-control HTTP/1.1\r\nHost: control\r\nConnection: close\r\n\r\n")
+		var one [1]byte
+		n, _ := c.Read(one[:]) // TLS 1.3 tickets come in with the first application data
+		resumed := c.ConnectionState().DidResume
+		c.Close()
+		if n == 0 || (i == 0 && resumed) {
+			return false
+		}
+		if i == 1 {
+			return resumed
+		}
+	}
+	return false
+}
+
 // ---- one call ------------------------------------------------------------------
 
 type callSpec struct {
@@ -943,10 +1016,28 @@ type callSpec struct {
 	Intent   string `json:"intent"` // right | wrong | malformed | unpinned (generator's intent only)
 	Spelling string `json:"spelling"`
 	FP       string `json:"fingerprint"`
+	// Scheme is how the scheme of the C2 URL is spelled: https | HTTPS | Https | hTTpS.
+	// Schemes are case-insensitive (RFC 3986 §3.1), the oracle never looks at it.
+	Scheme string `json:"url_scheme"`
+}
+
+// schemeVariants are the not-all-lower-case spellings of the scheme.
+var schemeVariants = []string{"HTTPS", "Https", "hTTpS"}
+
+func (s callSpec) lowerScheme() bool { return s.Scheme == "" || s.Scheme == "https" }
+
+// c2 is the URL handed to simpleshell.Go for this call against ep: the
+// endpoint's URL with the scheme spelled as the call wants it.
+func (s callSpec) c2(ep *endpoint) string {
+	if rest, ok := strings.CutPrefix(ep.url, "https://"); ok && !s.lowerScheme() {
+		return s.Scheme + "://" + rest
+	}
+	return ep.url
 }
 
 type callResult struct {
 	Spec         callSpec    `json:"call"`
+	C2           string      `json:"c2_url"`
 	Exp          expectation `json:"expected"`
 	Observed     string      `json:"observed"`
 	Err          string      `json:"go_error"`
@@ -973,7 +1064,8 @@ type world struct {
 	ids    []*identity
 	self   []*identity
 	cav    map[string][]*identity
-	pinned atomic.Int64 // well-formed pinned calls started in this process
+	pinned atomic.Int64   // well-formed pinned calls started in this process
+	cache  *countingCache // != nil: this process has given http.DefaultTransport a TLS client session cache
 	mu     sync.Mutex
 	hist   []string
 	seen   map[string]int
@@ -984,7 +1076,7 @@ const callTimeout = 20 * time.Second
 func (w *world) note(res *callResult) {
 	w.mu.Lock()
 	if len(w.hist) < 400 {
-		w.hist = append(w.hist, fmt.Sprintf("id%d/%s/%s %s(%s) expect=%s observed=%s", res.Spec.Ident, res.Spec.Class, res.Spec.Kind, res.Spec.Intent, res.Spec.Spelling, res.Exp.Expect, res.Observed))
+		w.hist = append(w.hist, fmt.Sprintf("%s://id%d/%s/%s %s(%s) expect=%s observed=%s", res.Spec.Scheme, res.Spec.Ident, res.Spec.Class, res.Spec.Kind, res.Spec.Intent, res.Spec.Spelling, res.Exp.Expect, res.Observed))
 	}
 	w.mu.Unlock()
 }
@@ -1026,6 +1118,7 @@ func (w *world) execOn(spec callSpec, snap bool, shared *endpoint) *callResult {
 		base = [7]int{ep.accepts, ep.clientHellos, ep.handshakes, ep.appByteConns, ep.appBytes, ep.handlerRuns, ep.echoed}
 		ep.mu.Unlock()
 	}
+	res.C2 = spec.c2(ep)
 	var before map[string]string
 	if snap {
 		before = takeSnap()
@@ -1045,7 +1138,7 @@ func (w *world) execOn(spec callSpec, snap bool, shared *endpoint) *callResult {
 				done <- fmt.Errorf("PANIC in simpleshell.Go: %v", p)
 			}
 		}()
-		done <- simpleshell.Go(ctx, simpleshell.ConnConfig{C2: ep.url, Fingerprint: spec.FP}, sh)
+		done <- simpleshell.Go(ctx, simpleshell.ConnConfig{C2: res.C2, Fingerprint: spec.FP}, sh)
 	}()
 	var gerr error
 	select {
@@ -1119,10 +1212,43 @@ func (w *world) execOn(spec callSpec, snap bool, shared *endpoint) *callResult {
 // judge compares a result with its own oracle and returns a violation key
 // ("" = held or inconclusive).
 func (w *world) judge(res *callResult) (key, what string) {
+	key, what = w.judge0(res)
+	if key != "" && !res.Spec.lowerScheme() {
+		key += ":scheme-case"
+		what += fmt.Sprintf(" [C2 URL %q: scheme spelled %q]", res.C2, res.Spec.Scheme)
+	}
+	return key, what
+}
+
+func (w *world) judge0(res *callResult) (key, what string) {
 	r := w.r
 	e, s := res.Exp, res.Spec
 	r.Eval(1)
 	r.Count("calls", 1)
+	if !s.lowerScheme() {
+		r.Count("calls_with_uppercase_scheme", 1)
+		r.Count("url_scheme:"+s.Scheme, 1)
+		switch {
+		case !e.Pinned:
+			r.Count("unpinned_calls_with_uppercase_scheme", 1)
+		case e.Expect == "accept":
+			r.Count("pinned_matching_calls_with_uppercase_scheme", 1)
+			if !w.ids[s.Ident].valid() {
+				// the pin is the only thing that can let this call through
+				r.Count("pinned_matching_calls_with_uppercase_scheme_to_servers_failing_ordinary_validation", 1)
+			}
+		case e.Expect == "refuse-handshake":
+			r.Count("pinned_mismatching_calls_with_uppercase_scheme", 1)
+			if w.ids[s.Ident].valid() {
+				// the pin is the only thing that can stop this call
+				r.Count("pinned_mismatching_calls_with_uppercase_scheme_to_servers_passing_ordinary_validation", 1)
+			}
+		default:
+			r.Count("malformed_calls_with_uppercase_scheme", 1)
+		}
+	} else {
+		r.Count("url_scheme:https", 1)
+	}
 	r.Count("spelling:"+s.Spelling, 1)
 	r.Count("server_kind:"+s.Kind, 1)
 	r.Count("identity_class:"+s.Class, 1)
@@ -1307,8 +1433,12 @@ func (w *world) mkSpec(id *identity, intent, class string, rng *mrand.Rand) (cal
 	if rng.IntN(2) == 0 {
 		kind = "https"
 	}
-	return callSpec{Ident: id.ID, Class: id.Class, ChainLen: len(id.Chain), Kind: kind, H2: rng.IntN(3) != 0, TLS13: rng.IntN(3) != 0,
-		Intent: intent, Spelling: class, FP: fp}, true
+	s := callSpec{Ident: id.ID, Class: id.Class, ChainLen: len(id.Chain), Kind: kind, H2: rng.IntN(3) != 0, TLS13: rng.IntN(3) != 0,
+		Intent: intent, Spelling: class, FP: fp, Scheme: "https"}
+	if rng.IntN(4) == 0 { // one call in four spells the scheme of its URL in another case
+		s.Scheme = schemeVariants[rng.IntN(len(schemeVariants))]
+	}
+	return s, true
 }
 
 func intentOf(class string) string {
@@ -1350,7 +1480,7 @@ func (w *world) genCall(rng *mrand.Rand) callSpec {
 }
 
 func shape(s callSpec, e expectation) string {
-	return fmt.Sprintf("%s/%s/len%d/pos%d/%s/h2=%v/tls13=%v/%s", s.Spelling, s.Class, s.ChainLen, e.MatchPos, s.Kind, s.H2 && s.Kind == "https", s.TLS13, e.Expect)
+	return fmt.Sprintf("%s/%s/len%d/pos%d/%s/h2=%v/tls13=%v/%s/scheme=%s", s.Spelling, s.Class, s.ChainLen, e.MatchPos, s.Kind, s.H2 && s.Kind == "https", s.TLS13, e.Expect, s.Scheme)
 }
 
 // ---- engines (child side) --------------------------------------------------------
@@ -1398,6 +1528,7 @@ func (w *world) runSame(index int, sample bool) {
 	var results []*callResult
 	var specs []callSpec
 	var sig []string
+	pinnedAccepted := 0
 	for _, intent := range pat {
 		var class string
 		switch intent {
@@ -1420,24 +1551,51 @@ func (w *world) runSame(index int, sample bool) {
 		res.Key, res.What = w.judge(res)
 		if res.Key != "" {
 			res.Key += ":same-server-sequence"
+			if w.cache != nil {
+				res.Key += ":process-session-cache"
+				res.What += " [same server as earlier calls of this sequence; the process has set a ClientSessionCache on http.DefaultTransport.TLSClientConfig]"
+			}
+		}
+		if w.cache != nil {
+			w.r.Count("same_server_calls_with_process_session_cache", 1)
+			if res.Exp.Pinned && res.Exp.Expect == "refuse-handshake" && pinnedAccepted > 0 {
+				// there is a session of this very server a careless client could resume
+				w.r.Count("mismatching_pins_after_an_accepted_pinned_call_to_the_same_server_with_process_session_cache", 1)
+			}
+		}
+		if res.Exp.Pinned && res.Exp.Expect == "accept" && res.Observed == "accepted" {
+			pinnedAccepted++
 		}
 		results = append(results, res)
 		sig = append(sig, shape(spec, res.Exp))
 		w.r.Distinct("call|" + shape(spec, res.Exp))
-		w.report("same", index, res, map[string]any{"position_in_sequence": len(results) - 1, "sequence": brief(specs), "same_server": true})
+		w.report("same", index, res, map[string]any{"position_in_sequence": len(results) - 1, "sequence": brief(specs), "same_server": true, "process_session_cache": w.cache != nil})
 		w.r.Count("same_server_calls", 1)
 	}
+	// positive control: this server does let a later connection resume a session
+	switch {
+	case !ep.resumeControl():
+		w.r.Count("same_server_resumption_controls_failed", 1)
+	case tls13:
+		w.r.Count("same_servers_shown_to_resume_tls13_sessions", 1)
+	default:
+		w.r.Count("same_servers_shown_to_resume_tls12_sessions", 1)
+	}
 	w.r.Eval(1)
+	if w.cache != nil {
+		w.r.Count("same_server_sequences_with_process_session_cache", 1)
+		sig = append(sig, "process-session-cache")
+	}
 	w.r.Distinct("same|" + strings.Join(sig, ","))
 	if sample {
-		w.r.Sample("same", map[string]any{"index": index, "calls": sampleOf(results)})
+		w.r.Sample("same", map[string]any{"index": index, "process_session_cache": w.cache != nil, "calls": sampleOf(results)})
 	}
 }
 
 func brief(specs []callSpec) []string {
 	var out []string
 	for _, s := range specs {
-		out = append(out, fmt.Sprintf("%s(%s)->id%d/%s/%s", s.Intent, s.Spelling, s.Ident, s.Class, s.Kind))
+		out = append(out, fmt.Sprintf("%s(%s)->%s://id%d/%s/%s", s.Intent, s.Spelling, s.Scheme, s.Ident, s.Class, s.Kind))
 	}
 	return out
 }
@@ -1446,7 +1604,7 @@ func sampleOf(rs []*callResult) []map[string]any {
 	var out []map[string]any
 	for _, x := range rs {
 		out = append(out, map[string]any{"server": fmt.Sprintf("identity %d (%s, chain of %d) %s h2=%v tls13=%v", x.Spec.Ident, x.Spec.Class, x.Spec.ChainLen, x.Spec.Kind, x.Spec.H2 && x.Spec.Kind == "https", x.Spec.TLS13),
-			"spelling": x.Spec.Spelling, "fingerprint": x.Spec.FP, "expected": x.Exp.Expect, "match_pos": x.Exp.MatchPos, "observed": x.Observed, "go_error": x.Err,
+			"spelling": x.Spec.Spelling, "fingerprint": x.Spec.FP, "c2_url": x.C2, "expected": x.Exp.Expect, "match_pos": x.Exp.MatchPos, "observed": x.Observed, "go_error": x.Err,
 			"tcp_accepts": x.Accepts, "application_bytes": x.AppBytes, "handler_runs": x.HandlerRuns, "tokens_echoed": x.Echoed, "default_client_diff": x.SnapDiff})
 	}
 	return out
@@ -1560,6 +1718,10 @@ func (w *world) caScript(j int) {
 	var script []callSpec
 	script = append(script, unpinnedRound()...)
 	script = append(script, mk("selfsigned", "exact"), mk("ca-valid", "prefixed"), mk("selfsigned", "other-server"), mk("ca-valid", "bitflip-hi"), mk("selfsigned", "len31"))
+	// the same with the scheme of the URL in another case, whatever the PRNG drew above:
+	// the pin alone lets the first through, the pin alone stops the second
+	up := func(s callSpec) callSpec { s.Scheme = schemeVariants[rng.IntN(len(schemeVariants))]; return s }
+	script = append(script, up(mk("selfsigned", "exact")), up(mk("ca-valid", "other-server")), up(mk("ca-valid", "unpinned")), up(mk("selfsigned", "unpinned")), up(mk("selfsigned", "garbage")))
 	script = append(script, unpinnedRound()...)
 	n0 := r.Counter("calls")
 	w.runSeq("ca", j, script, j == 0)
@@ -1625,8 +1787,22 @@ func Child(args []string) int {
 	// net/http configures HTTP/2 on DefaultTransport lazily on first use (also
 	// from Clone), which fills in TLSClientConfig/TLSNextProto; have that done
 	// before the first snapshot so that it is not blamed on the library.
+	// Processes started with "session-cache" are configured first, like an
+	// application that wants its own requests to resume TLS sessions.
+	if len(rest) > 4 && rest[4] == "session-cache" {
+		if !w.useProcessSessionCache() {
+			r.Inconclusive("child cannot give http.DefaultTransport a session cache (TLSClientConfig already set)")
+		}
+	}
 	if t, ok := http.DefaultTransport.(*http.Transport); ok {
 		t.Clone()
+		if w.cache != nil {
+			c := t.TLSClientConfig
+			if c == nil || c.ClientSessionCache != tls.ClientSessionCache(w.cache) || c.InsecureSkipVerify || c.VerifyConnection != nil || c.RootCAs != nil {
+				r.Inconclusive("the process-wide TLS configuration is not the one the harness has just set: " + tlsSummary(c))
+			}
+			r.Count("child_processes_with_process_session_cache", 1)
+		}
 	}
 	for i := start; i < start+count; i++ {
 		switch engine {
@@ -1645,6 +1821,14 @@ func Child(args []string) int {
 			w.caScript(i)
 			w.observations(i)
 		}
+	}
+	if w.cache != nil {
+		// on the unchanged library only un-pinned calls (which use the process-wide
+		// transport as it is) ever look at this cache, and nothing is stored: their
+		// servers are self-signed
+		r.Count("process_session_cache_lookups", w.cache.gets.Load())
+		r.Count("process_session_cache_hits", w.cache.hits.Load())
+		r.Count("process_session_cache_stores", w.cache.stores.Load())
 	}
 	if err := r.DumpChild(dump); err != nil {
 		fmt.Fprintln(os.Stderr, err)
@@ -1681,15 +1865,18 @@ func loadWorld(r *mon.Run, path string) (*world, error) {
 type batch struct {
 	engine       string
 	start, count int
+	opt          string // "session-cache": the process gives http.DefaultTransport a TLS client session cache first
 }
 
 func Run(r *mon.Run) {
-	r.Rule = "every call to simpleshell.Go (EchoShell) is made in a child process against a listener created for that call alone, so that TCP accepts, client hellos, completed handshakes, application bytes, handler runs and echoed tokens are attributed to one call. Servers: raw crypto/tls listeners answering HTTP/1.1 by hand (log handshake-done / first-application-byte) and net/http servers (HTTP/2 or 1.1, full duplex, header flushed at once); TLS 1.2 or 1.3; identities = fresh P-256 keys, self-signed with chains of 1–3 certificates (extras are unrelated self-signed P-256/Ed25519 certificates), plus leaves signed by a harness CA that the children trust through SSL_CERT_FILE (valid / wrong SAN / expired / signed by an untrusted CA). Engines: single = every key × every spelling class (" + strconv.Itoa(len(spellAll)) + " classes: exact, prefixed, match at chain position 1/2, non-canonical padding bits, CR/LF, other server's pin, single-bit flips in either half, certificate hash, double prefix, no padding, URL alphabet, 31/33 bytes, hex, prefix only, garbage, spaces, …, no fingerprint), one key per process in PRNG order; seq = PRNG sequences of 2–6 calls (30% right, 20% wrong, 15% malformed, 35% un-pinned; 60% self-signed / 20% CA-valid / 20% CA-invalid servers), 10 sequences per process; conc = 2–8 such calls released together by a barrier, 5 sets per process, every deviating call repeated alone; ca = a fixed script (un-pinned round over all identity classes, pinned calls, un-pinned round, concurrent mix, un-pinned round). Oracle of a call = function of its own presented chain and fingerprint string only: un-pinned ⇒ accept iff the leaf chains to the trusted CA, names 127.0.0.1 and is in date (by construction); pinned ⇒ strip one sha256// prefix, decode as RFC 4648 standard base64 (harness decoder cross-checked against encoding/base64), 32 bytes else refuse outright (no TCP connection may reach the server), accept iff equal to SHA-256 of the SubjectPublicKeyInfo of SOME presented certificate, else refuse with zero application bytes. Negative observations are read after a probe connection of the harness has been accepted behind the call's own connections and all server-side handlers have ended. Snapshot of http.DefaultClient / http.DefaultTransport fields before and after every call (around the whole set for concurrent calls). distinct_nontrivial = distinct call shapes (spelling class, identity class, chain length, match position, server kind, protocol, TLS version, expected outcome) plus distinct sequence / set shapes (the ordered resp. sorted list of call shapes)"
+	r.Rule = "every call to simpleshell.Go (EchoShell) is made in a child process against a listener created for that call alone, so that TCP accepts, client hellos, completed handshakes, application bytes, handler runs and echoed tokens are attributed to one call. Servers: raw crypto/tls listeners answering HTTP/1.1 by hand (log handshake-done / first-application-byte) and net/http servers (HTTP/2 or 1.1, full duplex, header flushed at once); TLS 1.2 or 1.3; identities = fresh P-256 keys, self-signed with chains of 1–3 certificates (extras are unrelated self-signed P-256/Ed25519 certificates), plus leaves signed by a harness CA that the children trust through SSL_CERT_FILE (valid / wrong SAN / expired / signed by an untrusted CA). Engines: single = every key × every spelling class (" + strconv.Itoa(len(spellAll)) + " classes: exact, prefixed, match at chain position 1/2, non-canonical padding bits, CR/LF, other server's pin, single-bit flips in either half, certificate hash, double prefix, no padding, URL alphabet, 31/33 bytes, hex, prefix only, garbage, spaces, …, no fingerprint), one key per process in PRNG order; seq = PRNG sequences of 2–6 calls (30% right, 20% wrong, 15% malformed, 35% un-pinned; 60% self-signed / 20% CA-valid / 20% CA-invalid servers), 10 sequences per process; conc = 2–8 such calls released together by a barrier, 5 sets per process, every deviating call repeated alone; same = 2–5 calls of one process against ONE listener (right then wrong pin, wrong-right-wrong, malformed and un-pinned in between; 7 patterns, 7 sequences per process), every second process of this engine first configured like an application that wants TLS session resumption (http.DefaultTransport.TLSClientConfig = &tls.Config{ClientSessionCache: LRU}, set before the transport's first use and before every snapshot; un-pinned calls keep ordinary validation), and after each sequence the harness's own TLS client shows that the listener does let a second connection resume a session (TLS 1.2 and 1.3); ca = a fixed script (un-pinned round over all identity classes, pinned calls, un-pinned round, concurrent mix, un-pinned round). In every engine one call in four spells the scheme of its C2 URL HTTPS://, Https:// or hTTpS:// (PRNG). Oracle of a call = function of its own presented chain and fingerprint string only: un-pinned ⇒ accept iff the leaf chains to the trusted CA, names 127.0.0.1 and is in date (by construction); pinned ⇒ strip one sha256// prefix, decode as RFC 4648 standard base64 (harness decoder cross-checked against encoding/base64), 32 bytes else refuse outright (no TCP connection may reach the server), accept iff equal to SHA-256 of the SubjectPublicKeyInfo of SOME presented certificate, else refuse with zero application bytes. Negative observations are read after a probe connection of the harness has been accepted behind the call's own connections and all server-side handlers have ended. Snapshot of http.DefaultClient / http.DefaultTransport fields before and after every call (around the whole set for concurrent calls). distinct_nontrivial = distinct call shapes (spelling class, identity class, chain length, match position, server kind, protocol, TLS version, expected outcome) plus distinct sequence / set shapes (the ordered resp. sorted list of call shapes)"
 	r.Assumptions = []string{
 		"keys are fresh per run (crypto/rand); the seed fixes the shape of every case (identity index, spelling class, bit position, server kind, order), not the key bytes",
 		"CR and LF inside a fingerprint are skipped as RFC 4648 decoders commonly do (encoding/base64 does); for such strings both 'refused outright' and 'treated as the stripped string' are accepted",
 		"net/http's lazy HTTP/2 configuration of DefaultTransport (TLSClientConfig/TLSNextProto filled in on first use or Clone) is triggered by the harness before the first snapshot and is not attributed to the library",
 		"on net/http servers 'application byte' is approximated by the connection becoming active (ConnState) or the handler running; the byte-exact monitor is the raw TLS server",
+		"the scheme of a URL is case-insensitive (RFC 3986 §3.1; net/url lower-cases it): HTTPS://host/io names the same resource as https://host/io, so the oracle of a call does not look at the spelling of the scheme",
+		"a TLS client session cache on http.DefaultTransport is process configuration the application is entitled to (it is set by the harness, in every second process of the same-server engine, before the first snapshot); the oracle of a call stays a function of its own chain and fingerprint — a session left behind by an earlier connection to the same server is exactly the kind of history the decision must not depend on",
 		"replaying a case re-runs the whole batch that shared its process (≤10 sequences / 5 sets / one key), because the property is about process history",
 	}
 	nSelf, nCA := r.N(8, 64), r.N(3, 9)
@@ -1730,7 +1917,11 @@ func Run(r *mon.Run) {
 				}
 			}
 			if want {
-				batches = append(batches, batch{engine, s, n})
+				bt := batch{engine: engine, start: s, count: n}
+				if engine == "same" && (s/per)%2 == 1 { // every second process of the same-server engine
+					bt.opt = "session-cache"
+				}
+				batches = append(batches, bt)
 			}
 		}
 	}
@@ -1742,7 +1933,7 @@ func Run(r *mon.Run) {
 	var died atomic.Int64
 	mon.Parallel(len(batches), runtime.NumCPU(), func(i int) {
 		bt := batches[i]
-		res, err := r.RunChild("", "c13", 10*time.Minute, bt.engine, strconv.Itoa(bt.start), strconv.Itoa(bt.count), idPath)
+		res, err := r.RunChild("", "c13", 10*time.Minute, bt.engine, strconv.Itoa(bt.start), strconv.Itoa(bt.count), idPath, bt.opt)
 		if err != nil {
 			died.Add(1)
 			st := string(res.Stderr)
@@ -1757,6 +1948,9 @@ func Run(r *mon.Run) {
 		}
 	})
 	r.Count("application_bytes_seen_on_refused", 0) // make the key appear even when (as it must be) nothing was seen
+	r.Count("process_session_cache_stores", 0)
+	r.Count("process_session_cache_hits", 0)
+	r.Count("same_server_resumption_controls_failed", 0)
 	r.Count("child_processes", int64(len(batches)))
 	r.Count("child_processes_died", died.Load())
 	r.Logf("%d child processes, %d calls", len(batches), r.Counter("calls"))
@@ -1777,6 +1971,16 @@ func Run(r *mon.Run) {
 	r.Floor("probes", int64(r.N(300, 8000)))
 	r.Floor("sequences", int64(r.N(80, 3000)))
 	r.Floor("same_server_sequences", int64(r.N(56, 1400)))
+	r.Floor("same_server_sequences_with_process_session_cache", int64(r.N(28, 700)))
+	r.Floor("child_processes_with_process_session_cache", int64(r.N(4, 100)))
+	r.Floor("mismatching_pins_after_an_accepted_pinned_call_to_the_same_server_with_process_session_cache", int64(r.N(20, 500)))
+	r.Floor("process_session_cache_lookups", int64(r.N(4, 100)))
+	r.Floor("same_servers_shown_to_resume_tls13_sessions", int64(r.N(10, 300)))
+	r.Floor("same_servers_shown_to_resume_tls12_sessions", int64(r.N(3, 100)))
+	r.Floor("calls_with_uppercase_scheme", int64(r.N(120, 3000)))
+	r.Floor("pinned_matching_calls_with_uppercase_scheme_to_servers_failing_ordinary_validation", int64(r.N(20, 500)))
+	r.Floor("pinned_mismatching_calls_with_uppercase_scheme_to_servers_passing_ordinary_validation", int64(r.N(1, 50)))
+	r.Floor("unpinned_calls_with_uppercase_scheme", int64(r.N(20, 500)))
 	r.Floor("concurrent_sets", int64(r.N(40, 1000)))
 	r.Floor("single_keys", int64(nSelf))
 	r.Floor("ca_child_calls", 25)
